@@ -526,6 +526,15 @@ var badLines = []string{
 	"$GENERATE 0-65536 a$ A 10.0.0.1",
 	"$GENERATE 1-2/0 a$ A 10.0.0.1",
 	"$INCLUDE no-such-file.db",
+	// lexical faults on directive lines
+	"$TTL 300 )",
+	"$ORIGIN example. )",
+	"$INCLUDE no-such-file.db )",
+	"$INCLUDE no-such-file.db sub.example. )",
+	"$GENERATE 1-2 a$ 300 IN A 10.0.0.$ )",
+	"$TTL ) 300",
+	"$ORIGIN ) example.",
+	"$INCLUDE ) no-such-file.db",
 }
 
 func genFault(t *rapid.T) faultCase {
@@ -1204,6 +1213,89 @@ func swallowsOnPinnedTree(sample, fault string) bool {
 	return false
 }
 
+// ---------------------------------------------------------------------------------------------
+// every directive with a lexical fault at every token boundary of its line, between records: the
+// fault must be reported, or nothing after the line may be lost
+
+type dirFaultCase struct {
+	Directive int // index into directiveLines
+	Fault     int // index into directiveFaults
+	Pos       int // token boundary (0 = behind the keyword ... n = end of line)
+	Allowed   bool
+}
+
+var directiveLines = [][]string{
+	{"$INCLUDE", "inc1"},
+	{"$INCLUDE", "inc1", "sub"},
+	{"$INCLUDE", "inc1", "sub", ";", "comment"},
+	{"$ORIGIN", "sub"},
+	{"$ORIGIN", "sub.example."},
+	{"$TTL", "300"},
+	{"$TTL", "1h", ";", "comment"},
+	{"$GENERATE", "1-2", "g$", "A", "10.0.0.$"},
+	{"$GENERATE", "1-2", "g$", "300", "IN", "A", "10.0.0.$"},
+	{"$GENERATE", "1-1", "$$INCLUDE", "inc1"},
+	{"$GENERATE", "1-1", "$$INCLUDE", "inc1", "sub"},
+}
+
+var directiveFaults = []string{")", ") (", "(", "\"", "\" x", "TYPE99999", "CLASS99999", strings.Repeat("a", 70000), "\\", "( ) )"}
+
+func dirFaultText(c dirFaultCase) (string, bool) {
+	if c.Directive < 0 || c.Directive >= len(directiveLines) || c.Fault < 0 || c.Fault >= len(directiveFaults) {
+		return "", false
+	}
+	toks := directiveLines[c.Directive]
+	if c.Pos < 1 || c.Pos > len(toks) {
+		return "", false
+	}
+	line := append(append(append([]string(nil), toks[:c.Pos]...), directiveFaults[c.Fault]), toks[c.Pos:]...)
+	return "a 60 IN A 10.0.0.1\n" + strings.Join(line, " ") + "\nb 60 IN A 10.0.0.2\nc 60 IN A 10.0.0.3\n", true
+}
+
+func checkDirFault(c dirFaultCase) error {
+	text, ok := dirFaultText(c)
+	if !ok {
+		pbt.Note(nil, false, "invalid-case")
+		return nil
+	}
+	pbt.Note([]byte(fmt.Sprint(c.Allowed)+text), true, "dir-fault:"+directiveLines[c.Directive][0], fmt.Sprintf("dir-fault:fault=%d", c.Fault), fmt.Sprintf("allowed=%v", c.Allowed))
+	return evalDirFault(c, text)
+}
+
+func evalDirFault(c dirFaultCase, text string) error {
+	files := extraFiles()
+	files["top.db"] = text
+	cfg := parserCfg{File: "top.db", Origin: "example.", Allowed: c.Allowed, UseFS: true}
+	out, viol := runParser(files, cfg, nil)
+	show := text
+	if len(show) > 300 {
+		show = show[:150] + "…" + show[len(show)-100:]
+	}
+	if viol != nil {
+		return pbt.Errf("%s\nincludes allowed=%v\n%q", strings.SplitN(viol.Error(), "\n", 2)[0], c.Allowed, show)
+	}
+	if out.Err != nil {
+		return nil
+	}
+	if !hasOwner(out.First, "a.example.") || !hasOwner(out.First, "b.") && !hasOwner(out.First, "b.example.") && !hasOwner(out.First, "b.sub.") ||
+		!hasOwner(out.First, "c.") && !hasOwner(out.First, "c.example.") && !hasOwner(out.First, "c.sub.") {
+		return pbt.Errf("no error is reported and records of the lines around the directive are missing (%d records returned: %v)\nincludes allowed=%v\n%q", out.N, out.First, c.Allowed, show)
+	}
+	return nil
+}
+
+func eachDirFault(emit func(dirFaultCase)) {
+	for d, toks := range directiveLines {
+		for f := range directiveFaults {
+			for pos := 1; pos <= len(toks); pos++ {
+				for _, a := range []bool{false, true} {
+					emit(dirFaultCase{Directive: d, Fault: f, Pos: pos, Allowed: a})
+				}
+			}
+		}
+	}
+}
+
 func init() {
 	// a $GENERATE whose template has a modifier that is rejected while the expansion is read (the
 	// error surfaces in the middle of a generated line) returns a record built from the truncated
@@ -1296,6 +1388,18 @@ func init() {
 	pbt.Register(pbt.Sub[readFaultCase]{Name: "read-fault", Weight: 4, Gen: genReadFault, Check: checkReadFault})
 	pbt.Register(pbt.Sub[gateCase]{Name: "gate", Weight: 0.2, Gen: genGate, Check: checkGate})
 	pbt.RegisterEnum(pbt.Enum[gateCase]{Name: "gate-table", Exhaustive: true, Each: eachGate, Check: checkGate})
+	pbt.RegisterEnum(pbt.Enum[dirFaultCase]{Name: "directive-fault", Exhaustive: true, Each: eachDirFault, Check: checkDirFault})
+	// repaired by c430c6a: "$INCLUDE inc )" followed the include and then ended the zone silently
+	pbt.Probe("include-swallows-lexer-error", func() error {
+		for _, a := range []bool{true, false} {
+			c := dirFaultCase{Directive: 0, Fault: 0, Pos: 2, Allowed: a}
+			text, _ := dirFaultText(c)
+			if err := evalDirFault(c, text); err != nil {
+				return fmt.Errorf("%s", strings.SplitN(err.Error(), "\n", 2)[0])
+			}
+		}
+		return nil
+	})
 	pbt.RegisterEnum(pbt.Enum[typeFaultCase]{Name: "type-fault", Exhaustive: true, Each: eachTypeFault, Check: checkTypeFault})
 	// replay targets for inputs found by the native fuzz targets (no generated cases of their own:
 	// the rapid counterpart of FuzzZoneParser is "mutated")
